@@ -665,6 +665,13 @@ impl ArenaModel {
                 a.push(Act::TryWith { fallible: true, ty: Ty::U64, ok: false, inner: Inner::AllocKeep, probe: false, esz: 0 });
                 a.push(Act::Slice { m: SM::InitTryFillWith, el: El::U64, len: 3, fail_at: 1, inner: Inner::Nothing });
                 a.push(Act::Reset { probe: false });
+                a.push(Act::ThreadHop);
+                if nraw > 1 {
+                    // the block below the newest one (e.g. the one allocated before a hand-over)
+                    let (s1, a1) = raw_sz(1).unwrap();
+                    a.push(Act::Dealloc { h: 1 });
+                    a.push(Act::Grow { h: 1, new_size: s1 + 8, al: crate::util::log2(a1), zeroed: false });
+                }
                 if p.limit.is_some() {
                     a.push(Act::SetLimit { some: false, val: 0 });
                 } else {
@@ -798,7 +805,26 @@ impl ArenaModel {
         self.dispatch(w, h, false, true)
     }
 
+    /// Runs the history; if it contains a hand-over to another thread and violates a memory-safety / accounting
+    /// property, the same history is run again with the hand-overs executed on the calling thread: if that run is
+    /// clean, the behaviour of the arena depends on which thread executes its operations (C20).
     fn dispatch(&self, w: &mut Worker, h: &Hist<Cfg, Act>, want_enabled: bool, trace: bool) -> (RunOut<Act>, Vec<String>) {
+        let (mut out, tr) = self.dispatch_inner(w, h, want_enabled, trace);
+        let relevant = |v: &Violation| matches!(v.prop, 1 | 2 | 4 | 8 | 10 | 12);
+        if out.violations.iter().any(relevant) && h.steps().iter().any(|s| matches!(s.act, Act::ThreadHop)) {
+            super::world::HOP_INLINE.with(|c| c.set(true));
+            let (o2, _) = self.dispatch_inner(w, h, false, false);
+            super::world::HOP_INLINE.with(|c| c.set(false));
+            if !o2.violations.iter().any(relevant) {
+                let first = out.violations.iter().find(|v| relevant(v)).unwrap();
+                let d = format!("with the arena handed to another thread for one allocation and back, the history violates `{}` ({}); the same history with that allocation made on the owning thread is clean: the arena's behaviour depends on the executing thread", first.key, first.detail);
+                out.violations.push(Violation { prop: 20, clause: "behaviour_depends_on_executing_thread", key: format!("behaviour_depends_on_executing_thread/{}", first.clause), detail: d, unsafe_mem: first.unsafe_mem });
+            }
+        }
+        (out, tr)
+    }
+
+    fn dispatch_inner(&self, w: &mut Worker, h: &Hist<Cfg, Act>, want_enabled: bool, trace: bool) -> (RunOut<Act>, Vec<String>) {
         match h.cfg.m {
             1 => self.run_m::<1>(w, h, want_enabled, trace),
             2 => self.run_m::<2>(w, h, want_enabled, trace),
